@@ -49,8 +49,61 @@ fn build(t: &[&str]) -> String {
     }
 }
 
+/// chain <par|seq> <dir> <ops> <names hex ,>
+/// ops: a.<id>.<prio> | r.<id> | s.<id>.<prio> | c ; archives are <dir>/arch<id>.mpq
+/// output: per name  <namehex>><winner id|none>:<content hex|ERR..>  then list() names, contains flags
+fn chain(t: &[&str]) -> String {
+    use wow_mpq::PatchChain;
+    let dir = t[1];
+    let path = |id: &str| format!("{dir}/arch{id}.mpq");
+    let id_of = |p: &std::path::Path| -> String {
+        let n = p.file_name().unwrap().to_string_lossy().to_string();
+        n.trim_start_matches("arch").trim_end_matches(".mpq").to_string()
+    };
+    let ops: Vec<&str> = if t[2] == "-" { vec![] } else { t[2].split(',').collect() };
+    let mut chain = if t[0] == "par" {
+        let l: Vec<(String, i32)> = ops.iter().filter(|o| o.starts_with("a.")).map(|o| {
+            let p: Vec<&str> = o.split('.').collect();
+            (path(p[1]), p[2].parse::<i32>().unwrap())
+        }).collect();
+        match PatchChain::from_archives_parallel(l) { Ok(c) => c, Err(e) => return errclass(&e) }
+    } else {
+        let mut c = PatchChain::new();
+        for o in &ops {
+            let p: Vec<&str> = o.split('.').collect();
+            let r = match p[0] {
+                "a" => c.add_archive(path(p[1]), p[2].parse::<i32>().unwrap()),
+                "r" => c.remove_archive(path(p[1])).map(|_| ()),
+                "s" => match c.set_priority(path(p[1]), p[2].parse::<i32>().unwrap()) { Ok(()) => Ok(()), Err(_) => Ok(()) },
+                _ => { c.clear(); Ok(()) }
+            };
+            if let Err(e) = r { return format!("OP-{}", errclass(&e)); }
+        }
+        c
+    };
+    let mut out = Vec::new();
+    for n in t[3].split(',') {
+        let name = String::from_utf8(unhex(n)).unwrap();
+        let w = chain.find_file_archive(&name).map(|p| id_of(p)).unwrap_or("none".to_string());
+        let c = match chain.read_file(&name) { Ok(d) => hex(&d), Err(e) => errclass(&e).replace(' ', "-") };
+        let has = chain.contains_file(&name);
+        out.push(format!("{n}>{w}:{c}:{}", if has { 1 } else { 0 }));
+    }
+    let mut listed: Vec<String> = match chain.list() { Ok(l) => l.iter().map(|e| hex(e.name.as_bytes())).collect(), Err(_) => vec!["LIST-ERR".to_string()] };
+    listed.sort();
+    format!("{} | {}", out.join(","), listed.join(","))
+}
+
 fn main() {
     serve(|t| match t[0] {
+        "chain" => chain(&t[1..]),
+        "patchapply" => {
+            use wow_mpq::patch::{PatchFile, apply_patch};
+            match PatchFile::parse(&unhex(t[1])) {
+                Err(_) => "PARSE-ERR".to_string(),
+                Ok(p) => match apply_patch(&p, &unhex(t[2])) { Ok(o) => format!("OK {}", hex(&o)), Err(_) => "ERR".to_string() },
+            }
+        }
         "build" => build(&t[1..]),
         // read <archive> <namehex>
         "read" => {
